@@ -312,3 +312,116 @@ func C03GoTypes() {
 	}
 	sym.Reach("gotypes-done")
 }
+
+type zzDeep struct {
+	Names []string
+	Grid  [][]int16
+	Inner struct {
+		F float32
+		T []struct {
+			A uint8
+			B string
+		}
+	}
+}
+
+// C03ContainersDeep (thorough): longer lists, lists of strings of symbolic lengths, a multi-entry map
+// (decoded from documented bytes in a fixed order; Go randomises the encoder's order, so the encoder
+// side is checked on the entry SET through the decoder), and a three-level struct.
+func C03ContainersDeep() {
+	switch sym.Choose("shape", 4) {
+	case 0:
+		n := sym.Choose("n", 7)
+		v := make([]int32, n)
+		spec := zzLE32(uint32(n))
+		for i := range v {
+			v[i] = sym.I32("e")
+			spec = append(spec, zzLE32(uint32(v[i]))...)
+		}
+		var back []int32
+		zzCheck("[]int32", "[i]", v, spec, &back, func() bool {
+			if len(back) != n {
+				return false
+			}
+			ok := true
+			for i := range v {
+				ok = sym.And(ok, back[i] == v[i])
+			}
+			return ok
+		})
+	case 1:
+		n := sym.Choose("n", 4)
+		v := make([]string, n)
+		spec := zzLE32(uint32(n))
+		for i := range v {
+			v[i] = sym.Str("s", sym.Choose("len", 4))
+			spec = append(spec, zzStr(v[i])...)
+		}
+		var back []string
+		zzCheck("[]string", "[s]", v, spec, &back, func() bool {
+			if len(back) != n {
+				return false
+			}
+			ok := true
+			for i := range v {
+				ok = sym.And(ok, sym.EqStr(back[i], v[i]))
+			}
+			return ok
+		})
+	case 2:
+		// three entries with symbolic, pairwise distinct keys
+		k := []uint16{sym.U16("k0"), sym.U16("k1"), sym.U16("k2")}
+		sym.Assume(k[0] != k[1])
+		sym.Assume(k[0] != k[2])
+		sym.Assume(k[1] != k[2])
+		x := []int64{sym.I64("x0"), sym.I64("x1"), sym.I64("x2")}
+		spec := zzLE32(3)
+		for i := range k {
+			spec = zzCat(spec, zzLE16(k[i]), zzLE64(uint64(x[i])))
+		}
+		var back map[uint16]int64
+		err := NewDecoder(nil, bytes.NewReader(spec)).Decode(&back)
+		sym.Assert(err == nil, "map3/decode-ok")
+		sym.Assert(len(back) == 3, "map3/entries")
+		for i := range k {
+			got, ok := back[k[i]]
+			sym.Assert(ok, "map3/key-present")
+			sym.Assert(got == x[i], "map3/value")
+		}
+		// the encoder writes the same SET of entries: its output decodes to the same map and has the documented length
+		var buf bytes.Buffer
+		sym.Assert(NewEncoder(nil, &buf).Encode(map[uint16]int64{k[0]: x[0], k[1]: x[1], k[2]: x[2]}) == nil, "map3/encode-ok")
+		sym.Assert(buf.Len() == len(spec), "map3/encoded-length")
+		var again map[uint16]int64
+		sym.Assert(NewDecoder(nil, bytes.NewReader(buf.Bytes())).Decode(&again) == nil, "map3/re-decode-ok")
+		sym.Assert(len(again) == 3, "map3/re-decode-entries")
+		for i := range k {
+			sym.Assert(again[k[i]] == x[i], "map3/re-decode-value")
+		}
+	default:
+		var v zzDeep
+		v.Names = []string{sym.Str("n0", 2), sym.Str("n1", 0), sym.Str("n2", 1)}
+		v.Grid = [][]int16{{sym.I16("g00")}, {}, {sym.I16("g20"), sym.I16("g21")}}
+		fb := sym.F32("f")
+		v.Inner.F = math.Float32frombits(fb)
+		v.Inner.T = []struct {
+			A uint8
+			B string
+		}{{sym.U8("a0"), sym.Str("b0", 1)}, {sym.U8("a1"), sym.Str("b1", 2)}}
+		spec := zzCat(zzLE32(3), zzStr(v.Names[0]), zzStr(v.Names[1]), zzStr(v.Names[2]),
+			zzLE32(3), zzLE32(1), zzLE16(uint16(v.Grid[0][0])), zzLE32(0), zzLE32(2), zzLE16(uint16(v.Grid[2][0])), zzLE16(uint16(v.Grid[2][1])),
+			zzLE32(fb), zzLE32(2), []byte{v.Inner.T[0].A}, zzStr(v.Inner.T[0].B), []byte{v.Inner.T[1].A}, zzStr(v.Inner.T[1].B))
+		var back zzDeep
+		zzCheck("deep-struct", "([s][[w]](f[(Cs)]))", v, spec, &back, func() bool {
+			if !(len(back.Names) == 3 && len(back.Grid) == 3 && len(back.Grid[0]) == 1 && len(back.Grid[1]) == 0 && len(back.Grid[2]) == 2 && len(back.Inner.T) == 2) {
+				return false
+			}
+			ok := sym.And(sym.EqStr(back.Names[0], v.Names[0]), sym.And(sym.EqStr(back.Names[1], v.Names[1]), sym.EqStr(back.Names[2], v.Names[2])))
+			ok = sym.And(ok, sym.And(back.Grid[0][0] == v.Grid[0][0], sym.And(back.Grid[2][0] == v.Grid[2][0], back.Grid[2][1] == v.Grid[2][1])))
+			ok = sym.And(ok, math.Float32bits(back.Inner.F) == fb)
+			ok = sym.And(ok, sym.And(back.Inner.T[0].A == v.Inner.T[0].A, sym.EqStr(back.Inner.T[0].B, v.Inner.T[0].B)))
+			return sym.And(ok, sym.And(back.Inner.T[1].A == v.Inner.T[1].A, sym.EqStr(back.Inner.T[1].B, v.Inner.T[1].B)))
+		})
+	}
+	sym.Reach("containers-deep-done")
+}
